@@ -13,6 +13,7 @@ import ChibiVerif.Lemmas.PPTerm
 import ChibiVerif.Lemmas.PPSubst
 import ChibiVerif.Lemmas.C09Fuel
 import ChibiVerif.Lemmas.C09Stringize
+import ChibiVerif.Lemmas.C09FuelMono
 
 namespace ChibiVerif.Props.C09
 open ChibiVerif.PP
@@ -172,6 +173,38 @@ theorem C09_terminates_output (lx : String → LexOne) (st : St) (ts : List Tok)
 example : (expand 50 [("d", .fn ["x"] none [tk "x", tk "x"])]
       [tk "d", tk "(" .punct, tk "d", tk "(" .punct, tk "a", tk ")" .punct, tk ")" .punct]).map (·.map (·.text))
     = .ok ["a", "a", "a", "a"] := by decide
+
+/-- **C09 (fuel does not matter once it suffices).**  For every lexer, state and input (directive lines included): a run
+    of `preprocess2` that ends with output or with a diagnostic — anything but `.error .fuel` — ends the same way with any
+    larger amount of fuel.  So the fixed large constant the correspondence runs use computes the same answer as
+    `fuelBound` would. -/
+theorem C09_fuel_irrelevant (lx : String → LexOne) (n m : Nat) (hnm : n ≤ m) (st : St) (ts : List Tok)
+    (r : Except Err (List Tok × St)) (h : preprocess2 lx n st ts = r) (hr : r ≠ .error .fuel) :
+    preprocess2 lx m st ts = r :=
+  preprocess2_mono lx n m hnm st ts r h hr
+
+/-- non-vacuity: `f(1)(2)` with 20 units of fuel answers `1 f(2)` (evaluated), hence so does every larger amount -/
+example : ∀ m, 20 ≤ m → (expand m [("f", .fn ["x"] none [tk "x", tk "f"])]
+      [tk "f", tk "(" .punct, tk "1" .num, tk ")" .punct, tk "(" .punct, tk "2" .num, tk ")" .punct]).map (·.map (·.text))
+    = .ok ["1", "f", "(", "2", ")"] := by
+  intro m hm
+  have h20 : (expand 20 [("f", .fn ["x"] none [tk "x", tk "f"])]
+      [tk "f", tk "(" .punct, tk "1" .num, tk ")" .punct, tk "(" .punct, tk "2" .num, tk ")" .punct]).map (·.map (·.text))
+      = .ok ["1", "f", "(", "2", ")"] := by decide
+  cases hr : expand 20 [("f", .fn ["x"] none [tk "x", tk "f"])]
+      [tk "f", tk "(" .punct, tk "1" .num, tk ")" .punct, tk "(" .punct, tk "2" .num, tk ")" .punct] with
+  | error e => rw [hr] at h20; simp [Except.map] at h20
+  | ok v =>
+    rw [expand_mono 20 m hm _ _ _ hr (by simp)]
+    rw [hr] at h20
+    exact h20
+
+/-- **C09 (macro expansion is a total function).**  For every lexer, table and directive-free input there is one
+    answer — output or diagnostic, never `fuel` — that `preprocess2` gives for every amount of fuel from `fuelBound` on. -/
+theorem C09_expansion_total (lx : String → LexOne) (st : St) (ts : List Tok) (hnh : NoHash ts) :
+    ∃ r, r ≠ .error .fuel ∧ ∀ fuel, fuelBound st.defs ts ≤ fuel → preprocess2 lx fuel st ts = r :=
+  ⟨preprocess2 lx (fuelBound st.defs ts) st ts, C09_terminates lx st ts _ hnh (Nat.le_refl _),
+   fun fuel hf => C09_fuel_irrelevant lx _ fuel hf st ts _ rfl (C09_terminates lx st ts _ hnh (Nat.le_refl _))⟩
 
 /-- the former `C09_terminates_Statement`, now a theorem: there is a bound, computed from the table and the input alone,
     within which `preprocess2` finishes for *every* table -/
